@@ -100,6 +100,7 @@ class C12(HistoryProperty):
 
     def gen_case(self, rng, tier):
         cfg = gen.swarm_cfg(rng, off=("shape_change",), on=("dsclass", "fapp"))
+        cfg["empty_switches"] = rng.random() < 0.5  # a switch without any branch: every value is unmatched
         cfg["env_refs"] = rng.random() < 0.4  # Template texts referring to the process environment
         cfg["posonly_params"] = rng.random() < 0.4  # dataset functions with positional-only parameters
         cfg["stateful_callables"] = rng.random() < 0.5  # callback OBJECTS that a failed call leaves dirty
@@ -175,7 +176,7 @@ class C12(HistoryProperty):
         # the chain ends in a CONCRETE cause: the injected exception, one of labrea's own failure classes, or a ValueError of a
         # domain check -- not in an accident inside labrea (unhashable ..., a bare KeyError, an unbound local, a missing attribute)
         translated = len(chain) > 1 and isinstance(chain[-2], KeyNotFoundError)  # (the KeyError of the lookup, named by its wrapper)
-        accident = isinstance(root, (KeyError, UnboundLocalError, NameError, RecursionError)) or (
+        accident = isinstance(root, (KeyError, UnboundLocalError, NameError, RecursionError, IndexError)) or (
             # (a TypeError can be the user's data -- 1.0 in 'abc' --; one about hashing the INJECTED exception object is labrea's)
             isinstance(root, TypeError) and "unhashable type: 'Injected" in str(root))
         if not isinstance(root, (InjectedFault, EvaluationError)) and not translated and accident:
